@@ -12,6 +12,9 @@ with the patch the tree builds, the repository's test-suite passes and the demon
 """
 import json, os, re, shutil, subprocess, sys, time
 ENV = dict(os.environ, GOFLAGS="-mod=mod", GOPROXY="off", GOSUMDB="off", GOTOOLCHAIN="local")
+VROOT = os.environ.get("SEED_VERIF", "/verif")   # the /verif copy whose checks are run (parallel lanes use copies)
+REPO = os.environ.get("VERIF_REPO", "/repo")     # the tree the change is applied to for the checks
+KEEP = "/root/evidence_keep_%d" % os.getpid()
 
 def sh(cmd, cwd=None, timeout=900):
     p = subprocess.run(cmd, cwd=cwd, env=ENV, shell=isinstance(cmd, str), stdout=subprocess.PIPE, stderr=subprocess.STDOUT, text=True, timeout=timeout)
@@ -30,7 +33,7 @@ def main():
     meta = json.load(open(os.path.join(src, "meta.json"))) if os.path.exists(os.path.join(src, "meta.json")) else {}
     ran = []
     wt = "/root/seedwt_%d" % os.getpid()
-    sh("git -C /repo worktree add -q --detach %s HEAD" % wt)
+    sh("git -C %s worktree add -q --detach %s HEAD" % (REPO, wt))
     try:
         # where does the demonstration go?
         head = open(demo).read(400) if demo else ""
@@ -76,18 +79,18 @@ def main():
             res["demo_with_change"] = "fails" if rc != 0 else "PASSES (not a demonstration)"
             ran.append(democmd + " (with the change): rc=%d" % rc)
     finally:
-        sh("git -C /repo worktree remove --force %s" % wt)
+        sh("git -C %s worktree remove --force %s" % (REPO, wt))
     confirmed = res.get("patch_applies") and res.get("builds") and res.get("repo_tests_pass_with_change") and \
         res.get("demo_on_unchanged_tree") == "passes" and res.get("demo_with_change") == "fails"
     res["confirmed"] = bool(confirmed)
     checks = {}
     if confirmed:
-        sh("rm -rf /root/evidence_keep && cp -r /verif/evidence /root/evidence_keep")
-        rc, o = sh("git -C /repo apply %s" % patch)
+        sh("rm -rf %s && cp -r %s/evidence %s" % (KEEP, VROOT, KEEP))
+        rc, o = sh("git -C %s apply %s" % (REPO, patch))
         try:
             for p in [pid] + others:
                 t0 = time.time()
-                rc, o = sh("timeout 1500 ./check %s quick" % p, cwd="/verif", timeout=1600)
+                rc, o = sh("timeout 1500 ./check %s quick" % p, cwd=VROOT, timeout=1600)
                 lines = [l for l in o.splitlines() if l.startswith(("VIOLATION", "OK ", "KNOWN-FINDING", "TOOL-ERROR"))]
                 viol = [l for l in lines if l.startswith("VIOLATION")]
                 detail = ""
@@ -101,9 +104,9 @@ def main():
                              "lines": [l[:200] for l in lines[:6]], "first_replay": detail, "wall_s": round(time.time() - t0, 1)}
                 ran.append("./check %s quick with the change applied to /repo: exit %d" % (p, rc))
         finally:
-            sh("git -C /repo checkout -- .")
-            sh("git -C /repo clean -fdq")
-            sh("cp /root/evidence_keep/*.json /verif/evidence/ && rm -rf /root/evidence_keep")
+            sh("git -C %s checkout -- ." % REPO)
+            sh("git -C %s clean -fdq" % REPO)
+            sh("cp %s/*.json %s/evidence/ && rm -rf %s" % (KEEP, VROOT, KEEP))
     shutil.copy(patch, os.path.join(out, "patch.diff"))
     if demo:
         shutil.copy(demo, os.path.join(out, os.path.basename(demo)))
